@@ -878,3 +878,115 @@ def rule_align(rep):
     rep.floor('aligned vector accesses inspected', nacc, 200)
     rep.floor('calls of aligned-contract routines', ncall, 15)
     rep.ok('align:census', 'R-ALIGN', 'src/goldilocks_base_field_avx.hpp', '%d aligned vector accesses and %d aligned-contract call arguments inspected' % (nacc, ncall))
+
+
+# ------------------------------------------------------------------------------------------------ R-NARROW
+NARROW_PAT = (r'^(NTT_Goldilocks::|BR\(|PoseidonGoldilocks::(merkletree|linear_hash)|MerklehashGoldilocks::|Goldilocks::(parcpy|parSetZero)\(|'
+              r'Goldilocks::(copy|add|sub|mul)_(avx512|avx|batch)\(|Goldilocks3::\w+_(avx512|avx|batch)\()')
+ADDRESS_SINKS = re.compile(r'^(llvm\.mem(cpy|set|move)\.|malloc$|calloc$|_Znam$|_Znwm$|aligned_alloc$|llvm\.x86\.avx(2|512)\.(mask\.)?(gather|scatter))')
+
+
+def rule_narrow(rep, configs=('avx2', 'avx512')):
+    """R-NARROW (all shapes): a shape-derived integer that is narrowed below 64 bits - an explicit truncation, or a loop-carried
+    counter narrower than 32 bits - must not reach an address computation, a copy length or an allocation size inside the
+    routine.  (Arguments of ordinary calls and shift amounts are log-scale or schedule quantities on the pinned tree and are
+    not followed.)  This is the class of defect F11 repaired; it is decided for every shape, not for the explored ones."""
+    nsites = 0
+    nfun = 0
+    for cfg in configs:
+        mod = front.module(cfg, omp=True, sroa=True)
+        pat = re.compile(NARROW_PAT)
+        files = set()
+        names = []
+        for n in mod.funcs:
+            if pat.search(mod.dem.get(n, n)):
+                names.append(n)
+                try:
+                    files.add(mod.fn_loc(n)[0])
+                except Exception:
+                    pass
+        for n in mod.funcs:
+            if 'omp_outlined' in n:
+                try:
+                    if mod.fn_loc(n)[0] in files:
+                        names.append(n)
+                except Exception:
+                    pass
+        for name in names:
+            try:
+                fi = info(mod, name)
+            except Exception:
+                continue
+            nfun += 1
+            seeds = []
+            for b in fi.fn.order:
+                for ins in fi.fn.blocks[b]:
+                    if ins.op == 'trunc' and ins.ty[0] == 'i' and ins.ty[1] in (8, 16, 32) and ins.x and ins.x[0] == 'i' and ins.x[1] >= 32 and ins.x[1] > ins.ty[1]:
+                        src = ins.a[0]
+                        if src[0] != 'r':
+                            continue
+                        d = fi.defs.get(src[1])
+                        small = False
+                        if d is not None:
+                            di = d[1]
+                            if di.op == 'and' and any(a[0] == 'i' and 0 <= a[1] < (1 << ins.ty[1]) for a in di.a):
+                                small = True
+                            if di.op == 'urem' and di.a[1][0] == 'i' and di.a[1][1] <= (1 << ins.ty[1]):
+                                small = True
+                            if di.op in ('zext', 'sext') and di.x and di.x[0] == 'i' and di.x[1] <= ins.ty[1]:
+                                small = True
+                            if di.op == 'lshr' and di.a[1][0] == 'i' and di.a[1][1] >= ins.x[1] - ins.ty[1]:
+                                small = True
+                        if not small:
+                            seeds.append((ins, 'a %d-bit value truncated to %d bits' % (ins.x[1], ins.ty[1])))
+                    if ins.op == 'phi' and ins.ty in (('i', 8), ('i', 16)) and b in _loop_headers(fi):
+                        seeds.append((ins, 'a %d-bit loop-carried counter' % ins.ty[1]))
+            for ins, what in seeds:
+                nsites += 1
+                hit = None
+                todo = [ins.dst]
+                seen = set()
+                while todo and hit is None:
+                    r_ = todo.pop()
+                    if r_ in seen:
+                        continue
+                    seen.add(r_)
+                    for ub, u in fi.users(r_):
+                        if u.op == 'getelementptr':
+                            if any(a == ('r', r_) for a in u.a[1:]):
+                                hit = (u, 'an address computation')
+                                break
+                        elif u.op == 'call':
+                            c = callee_name(u)
+                            if c and ADDRESS_SINKS.match(c):
+                                hit = (u, 'a call of %s' % c)
+                                break
+                        elif u.op in ('shl', 'lshr', 'ashr'):
+                            if u.a[0] == ('r', r_):
+                                todo.append(u.dst)
+                        elif u.op in ('add', 'sub', 'mul', 'udiv', 'sdiv', 'urem', 'srem', 'and', 'or', 'xor', 'sext', 'zext', 'trunc', 'phi', 'select',
+                                      'insertelement', 'shufflevector', 'bitcast', 'freeze'):
+                            if u.dst:
+                                todo.append(u.dst)
+                site = loc(mod, ins, name)
+                tag = 'narrow:%s@%s' % (mod.dem.get(name, name).split('(')[0], site)
+                if hit:
+                    rep.refute(tag, 'R-NARROW', site, '%s reaches %s (%s): wrong address / length once the value no longer fits' % (what, hit[1], loc(mod, hit[0], name)))
+                else:
+                    rep.ok(tag, 'R-NARROW', site, '%s does not reach an address, a copy length or an allocation size in this routine' % what)
+    rep.ok('narrow:census', 'R-NARROW', 'src', '%d narrowing sites in %d shape-driven routines inspected' % (nsites, nfun))
+    rep.floor('shape-driven routines inspected for narrowing', nfun, 300)
+    return nsites
+
+
+def _loop_headers(fi):
+    h = getattr(fi, '_hdrs', None)
+    if h is None:
+        dom = fi.dominators()
+        h = set()
+        for b, ss in fi.succ.items():
+            for x in ss:
+                if x in dom[b]:
+                    h.add(x)
+        fi._hdrs = h
+    return h
